@@ -20,7 +20,7 @@ Definition quasisep_case n (Kq : qsm float) (N : noise float) (mu y : seq float)
   | None => (0%float, [::], [::])
   end.
 Definition kalman_case n m (Pinf : seq (seq float)) (A : seq (seq (seq float))) (H : seq (seq float)) (dg mu y : seq float) :=
-  let r := kalman_solve K n m Pinf A H dg (vsub K n y mu) in
+  let r := kalman_solver K n m Pinf A H dg (vsub K n y mu) in
   (quadform K n r.1, r.2, r.1).
 """
 LOG2PI = float(np.log(2 * np.pi))
@@ -101,7 +101,8 @@ def build_cases(chk):
                             ent["norm"] = float(gp.solver.normalization())
                             P = np.asarray(kern.stationary_covariance())
                             m = P.shape[0]
-                            ent["expr"] = (f"kalman_case {n} {m} {cmat(P)} {cten(np.asarray(gp.solver.A))} {cmat(np.asarray(gp.solver.H))} "
+                            Af, Hf = gpcases.kalman_tables(kern, X)
+                            ent["expr"] = (f"kalman_case {n} {m} {cmat(P)} {cten(Af)} {cmat(Hf)} "
                                            f"{cvec(Ndiag)} {cvec(mu)} {cvec(y)}")
                         case["solvers"][sname] = ent
                     cases.append(case)
@@ -206,6 +207,33 @@ def run(chk, solver_agreement_only=False):
                         if not ok:
                             oracle_bad.append(dict(op=op_ + " with mean " + mdesc, kernel=kdesc, n=n_, X=np.asarray(Xn).tolist(), y=yv.tolist(),
                                                    diag=dgv.tolist(), expected=float(want_m), observed=v_))
+    # pytree-structured coordinates X = (time, band): N is the number of DATA POINTS, not the number of leaves of X
+    if not solver_agreement_only:
+        from tinygp.solvers import DirectSolver, QuasisepSolver
+        Multiband, _Latent = gpcases.structured_kernels()
+        rngs = np.random.default_rng(chk.seed + 13)
+        for n_ in (1, 2, 5, 9):
+            tb = np.sort(rngs.uniform(0, 5, size=n_))
+            band = rngs.integers(0, 3, size=n_)
+            amps = np.array([1.0, 0.6, 1.7])
+            Xb = (jnp.asarray(tb), jnp.asarray(band))
+            yb = rngs.normal(size=n_)
+            dgb = rngs.uniform(0.2, 0.5, size=n_)
+            kmb = Multiband(kernel=qsk.Matern32(jnp.asarray(1.4), jnp.asarray(0.8)), amplitudes=jnp.asarray(amps))
+            tau = np.abs(tb[:, None] - tb[None, :])
+            Kd = amps[band][:, None] * amps[band][None, :] * (0.8 ** 2 * (1 + np.sqrt(3) * tau / 1.4) * np.exp(-np.sqrt(3) * tau / 1.4)) + np.diag(dgb)
+            want_s = -0.5 * yb @ np.linalg.solve(Kd, yb) - 0.5 * np.linalg.slogdet(Kd)[1] - 0.5 * n_ * LOG2PI
+            for sname_, scls_ in (("direct", DirectSolver), ("quasisep", QuasisepSolver)):
+                hist["structured-X/" + sname_] = hist.get("structured-X/" + sname_, 0) + 1
+                gps = GaussianProcess(kmb, Xb, diag=jnp.asarray(dgb), solver=scls_)
+                for op_, v_ in (("log_probability", float(gps.log_probability(jnp.asarray(yb)))),
+                                ("log_probability(jit)", float(jax.jit(lambda yy: gps.log_probability(yy))(jnp.asarray(yb)))),
+                                ("condition().log_probability", float(gps.condition(jnp.asarray(yb)).log_probability)),
+                                ("normalization + quadratic form", float(-gps.solver.normalization() - 0.5 * yb @ np.linalg.solve(Kd, yb)))):
+                    ok, dv = close([v_], [want_s], 1e-8)
+                    if not ok:
+                        oracle_bad.append(dict(op=f"{op_} with structured coordinates (time, band) [{sname_}]", n=n_, t=tb.tolist(), band=band.tolist(),
+                                               y=yb.tolist(), expected=float(want_s), observed=v_))
     # solver interchangeability (C03): every solver that accepts the model reports the same value
     for c in cases:
         vals = {s: e["logp"] for s, e in c["solvers"].items()}
